@@ -35,6 +35,12 @@ theorem num_processes_spec (env : Option Int) (cores : Int) :
 
 theorem glue_flags : fromCorrfuncsAsModelled = true ∧ normalisedArrayAsModelled = true ∧ raddAsModelled = true := by decide
 
+/-- file formats: FITS, HDF5 and Parquet files are recognised by their usual extensions (case-insensitively) and served by their own
+reader; any other extension is refused -/
+theorem reader_ext_table : readerExtensions =
+    [(".fits", "FitsReader"), (".cat", "FitsReader"), (".hdf5", "HDFReader"), (".hdf", "HDFReader"), (".h5", "HDFReader"),
+     (".pq", "ParquetReader"), (".pqt", "ParquetReader"), (".parq", "ParquetReader"), (".parquet", "ParquetReader")] := by decide
+
 theorem fits_flags : fitsByteorderValuePreserving = true := by decide
 
 /-! non-vacuity -/
